@@ -50,6 +50,8 @@ def oracle_cbv(n, bs, ep, mi, cbs):
     value that is not a bool at N, something falsy otherwise): every callback is called after every completed step that does
     not exhaust max_iter; a truthy non-bool result is a RuntimeError at once (the remaining callbacks are not called);
     the run ends after the first step at which a callback returned True.  Returns (n_iter, slices, calls, exception)"""
+    if any(v <= 0 and v != -1 for v in (bs, ep, mi)):
+        return "setup:ValueError"      # documented: batch_size / epochs / max_iter are positive numbers or -1
     plan = oracle_schedule(n, bs, ep, mi, bool(cbs), [])
     if plan == "err":
         return "err"
@@ -204,7 +206,8 @@ class CHECK(Check):
             "callbacks none / one callable / list of 1-3 callables returning False, None or True at chosen steps, "
             "cbv: n in 1..16, 0-3 callbacks returning True / a truthy non-bool (1, 'stop', numpy.True_, [0], 2.5, a plain object) at "
             "chosen steps and otherwise a falsy value (False, None, 0, '', numpy.False_), compared with `schedsrc.fitv` "
-            "(lifted `if self.callbacks_:` guard and result check: step count, slices, (callback, step) log, exception kind), "
+            "(lifted `if self.callbacks_:` guard and result check: step count, slices, (callback, step) log, exception kind); "
+            "in 15% of the cbv cases one of batch_size / epochs / max_iter is 0, -2, -3 or -7 (lifted range check of __setup), "
             "classifier (int/str labels) or regressor, ndarray/list/pandas containers, shuffle=False. "
             "real: n in 2..24, 1-3 dyadic features, y binary/multiclass/continuous with int or str labels, sensitive feature "
             "binary/multiclass, predictor/adversary lists with 0-1 hidden layers, SGD or Adam, both constraints; rows are "
@@ -319,7 +322,12 @@ class CHECK(Check):
         mi = rng.choice([-1, -1, rng.randint(1, 12)])
         if ep == -1 and mi == -1 and rng.random() < 0.9:
             mi = rng.randint(1, 12)
-        planned = "err" if (ep == -1 and mi == -1) else len(oracle_schedule(n, bs, ep, mi, False, []))
+        if rng.random() < 0.15:       # a value outside the documented domain (positive or -1): rejected by the set-up
+            bad = rng.choice([0, 0, -2, -3, -7])
+            which = rng.choice(["bs", "ep", "mi"])
+            bs, ep, mi = (bad if which == "bs" else bs), (bad if which == "ep" else ep), (bad if which == "mi" else mi)
+        invalid = any(v <= 0 and v != -1 for v in (bs, ep, mi))
+        planned = "err" if (invalid or (ep == -1 and mi == -1)) else len(oracle_schedule(n, bs, ep, mi, False, []))
         cbs = []
         for _ in range(rng.choice([0, 1, 1, 2, 2, 3])):
             t, nb = [], []
@@ -794,14 +802,19 @@ class CHECK(Check):
         def fmt(ni, sl, calls, exc):
             return (f"{ni} " + (",".join(f"{lo}:{hi}" for lo, hi in sl) if sl else "-") + " "
                     + (",".join(f"{i}:{k}" for i, k in calls) if calls else "-") + " " + exc)
-        wtxt = "err" if want == "err" else fmt(*want)
+        wtxt = want if isinstance(want, str) else fmt(*want)
         thm = "C17.src_nonbool_callback_rejected" if case["cbs"] else "C17.src_no_callbacks_no_calls"
         if mo is not None and mo[0] != wtxt:
             probs.append(model_problem(f"lifted guard / result check: interpreter says {mo[0][:160]}, documented {wtxt[:160]}"))
-        if want == "err":
-            if o["exc"] != "ValueError" or o["slices"]:
-                probs.append(Problem("property", f"epochs=-1 and max_iter=-1 must be rejected before any step, got {str(o)[:100]}",
-                                     "C17.both_unset_rejected"))
+        if isinstance(want, str):
+            if o["exc"] != "ValueError" or o["slices"] or o["calls"]:
+                if want == "err":
+                    probs.append(Problem("property", f"epochs=-1 and max_iter=-1 must be rejected before any step, got {str(o)[:100]}",
+                                         "C17.both_unset_rejected"))
+                else:
+                    probs.append(Problem("property", f"batch_size={case['bs']}, epochs={case['ep']}, max_iter={case['mi']}: a value that "
+                                         f"is neither positive nor -1 must be rejected with ValueError before any step, got {str(o)[:100]}",
+                                         "C17.src_nonpositive_params_rejected"))
             return probs
         itxt = fmt(o["n_iter"], [tuple(x) for x in o["slices"]], [(c[0], c[1]) for c in o["calls"]], o["exc"])
         if itxt != wtxt:
@@ -1015,11 +1028,11 @@ class CHECK(Check):
         if case["kind"] == "cbv":
             w = oracle_cbv(case["n"], case["bs"], case["ep"], case["mi"], [(set(c["T"]), set(c["N"])) for c in case["cbs"]])
             tags = ["kind=cbv", f"callbacks={len(case['cbs'])}", f"est={case['est']}",
-                    "outcome=" + ("err" if w == "err" else "RuntimeError" if w[3] != "-" else "completed")]
-            if w != "err" and w[3] != "-":
+                    "outcome=" + (w if isinstance(w, str) else "RuntimeError" if w[3] != "-" else "completed")]
+            if not isinstance(w, str) and w[3] != "-":
                 tags.append("nonbool=" + next(c["nb"] for c in case["cbs"] if w[0] in c["N"]))
             tags += sorted({"falsy=" + c["dflt"] for c in case["cbs"]})
-            return json.dumps(case, sort_keys=True), (w != "err" and w[0] >= 2), tags
+            return json.dumps(case, sort_keys=True), (not isinstance(w, str) and w[0] >= 2), tags
         tags = [f"kind={case['kind']}"]
         want = oracle_schedule(case["n"], case["bs"], case["ep"], case["mi"], self._has_cb(case), self._stops(case))
         nsteps = 0 if want == "err" else len(want)
